@@ -3,7 +3,7 @@ from .. import cases, monitors, oracles
 from . import _align_common as ac
 
 TITLE = "Alignment results do not depend on the MIP back-end"
-DECIDING = ["M-SOLVER", "M-PART", "M-COVER", "M-EQ", "M-OPT"]
+DECIDING = ["M-SOLVER", "M-PART", "M-COVER", "M-EQ", "M-OPT", "M-SESSION"]
 LEVEL = "exploration"
 RULE = ("every case = one continuum (small to medium: up to 2x40, 3x12, 4x6, 5x4 units; plus a block of 2x~180 and 3x~40 dense "
         "continua with 10 000 - 50 000 candidate unitary alignments, plus a sweep of 3-annotator continua through the point where a "
@@ -11,7 +11,8 @@ RULE = ("every case = one continuum (small to medium: up to 2x40, 3x12, 4x6, 5x4
         "aligned (best and soft) under three solver configurations: cylp importable (CBC), `import cylp` raising "
         "ImportError (GLPK), CBC raising cvxpy.SolverError (fault injection, GLPK); a spy on cvxpy.Problem.solve "
         "proves which solver ran; the order of the two kinds and of the three configurations varies from case to case; continua of at most 12 units are also "
-        "compared with the exact optimum (dynamic programme); non-trivial = >= 2 units and >= 2 non-empty annotators; distinct by SHA-1")
+        "compared with the exact optimum (dynamic programme); 12 % of the small cases are editing sessions (all configurations, an edit of the same continuum "
+        "object, all configurations again); non-trivial = >= 2 units and >= 2 non-empty annotators; distinct by SHA-1")
 ASSUMPTIONS = [
     "the 'failing' configuration is modelled by cvxpy.SolverError raised from Problem.solve when the CBC solver is "
     "requested (the error class the library itself anticipates)",
@@ -27,10 +28,25 @@ def plan(tier, seed):
 
 
 def check_case(ctx, case):
+    if case.get("session"):
+        # ONE continuum object and one dissimilarity object: all configurations, an edit of the continuum, all configurations again ...
+        continuum = cases.build_continuum(case["continuum"])
+        for k, op in enumerate([None] + case["session"]):
+            if op is not None:
+                ac.apply_edit(continuum, op)
+            if not continuum or len(continuum.annotators) < 2:
+                continue
+            ctx.count("M-SESSION")
+            _check(ctx, dict(case, continuum=dict(cases.spec_of(continuum), family=case["continuum"].get("family")), order_seed=case.get("order_seed", 0) + k),
+                   continuum)
+        return
+    _check(ctx, case, cases.build_continuum(case["continuum"]))
+
+
+def _check(ctx, case, continuum):
     spy, pool = ac.setup(ctx)
     cspec, dspec = case["continuum"], case["dissim"]
     dissim = pool.get(dspec)
-    continuum = cases.build_continuum(cspec)
     # the order in which the two kinds of alignment and the three configurations follow each other in the process varies from
     # case to case (what an earlier call left behind must not matter)
     kinds = [("best", False), ("soft", True)]
@@ -118,6 +134,13 @@ def run(ctx):
         ctx.begin_case(case)
         ctx.observe("family", "near-tie-sweep")
         check_case(ctx, case)
+    for _ in range(2):      # two editing sessions first, whatever the time budget (deciding monitor)
+        cs0 = cases.gen_continuum(rng, n_annot=3, max_units=3, allow_empty=False, labels=cases.LABELS_SMALL)
+        case = {"continuum": cs0, "dissim": {"kind": "positional", "delta": 1.0}, "order_seed": 3,
+                "session": [["add_annotator", "zoe"]] + ac.gen_edit_ops(rng, cs0, cases.LABELS_SMALL, 2)}
+        ctx.begin_case(case)
+        ctx.observe("family", "session")
+        check_case(ctx, case)
     # continua whose partition or cover programme has an integrality gap: every back-end has to branch on them
     hard = ac.hard_mip_cases(ctx, "partition", limit=ctx.scale(14, None)) + ac.hard_mip_cases(ctx, "cover", limit=ctx.scale(6, None), min_gap=1e-3)
     for hc in hard:
@@ -149,6 +172,8 @@ def run(ctx):
             cspec = cases.gen_continuum(rng, n_annot=n, max_units=rng.randint(1, MAXU[n]),
                                         labels=labels or cases.LABELS_SMALL, min_total=2)
         case = {"continuum": cspec, "dissim": dspec, "order_seed": rng.randrange(10 ** 6)}
+        if rng.random() < 0.12 and cases.spec_num_units(cspec) <= 14:
+            case["session"] = ac.gen_edit_ops(rng, cspec, labels or cases.LABELS_SMALL, rng.randint(1, 3))
         nonempty = sum(1 for us in cspec["ann"].values() if us)
         ctx.begin_case(case, nontrivial=cases.spec_num_units(cspec) >= 2 and nonempty >= 2)
         ac.observe_case(ctx, case)
